@@ -28,7 +28,7 @@ type PropConfig struct {
 func protectedRegions(ws []WriterSpec) map[string]map[string]bool {
 	out := map[string]map[string]bool{}
 	for _, w := range ws {
-		if w.Kind != "field" {
+		if w.Kind != "field" && w.Kind != "ctor-field" {
 			continue
 		}
 		i := strings.LastIndex(w.Target, ".")
@@ -44,6 +44,11 @@ func protectedRegions(ws []WriterSpec) map[string]map[string]bool {
 			} else {
 				set[pkg+"::"+a] = true
 			}
+		}
+		if w.Kind == "ctor-field" {
+			// written only while the object is being constructed (checked by the scan): no call
+			// can change the field of an object that already exists, whoever it reaches
+			set = map[string]bool{}
 		}
 		out["F_"+sanitize(typ)+"."+field] = set
 	}
